@@ -72,7 +72,7 @@ func TestVerifC17HRR(t *testing.T) {
 				fake = append(fake, g) // e.g. Firefox' ffdhe groups: listed, documented as unsupported
 			}
 		}
-		mode := []string{"valid-group", "valid-group", "valid-group", "cookie-only", "invalid-group-already-shared", "invalid-no-change", "unsupported-listed-group"}[rapid.IntRange(0, 6).Draw(rt, "mode")]
+		mode := []string{"valid-group", "valid-group", "valid-group", "cookie-only", "invalid-group-already-shared", "invalid-no-change", "unsupported-listed-group", "invalid-group-unoffered"}[rapid.IntRange(0, 7).Draw(rt, "mode")]
 		s := &vsrvScript{HRR: true}
 		// any offered TLS 1.3 suite: the transcript hash (SHA-256 or SHA-384) enters the message_hash construct of the retry
 		var offered13 []uint16
@@ -125,6 +125,28 @@ func TestVerifC17HRR(t *testing.T) {
 			s.HRRCookie = cookie
 		case "invalid-no-change":
 			// neither key_share nor cookie
+		case "invalid-group-unoffered":
+			// a group supported_groups does not list: the curves the library can generate shares for first, then others
+			var cands []uint16
+			for _, g := range []uint16{0x001d, 0x0017, 0x0018, 0x0019, vfGroupX25519MLKEM768, 0x6399, 0x0100, 0x001e, 0x0a0a} {
+				if !vfContains16(o.Groups, g) {
+					cands = append(cands, g)
+				}
+			}
+			if len(cands) == 0 {
+				return
+			}
+			var gen []uint16 // unoffered, but a curve the library could generate a share for
+			for _, g := range cands {
+				if vfContains16(vfClassicalGroups, g) {
+					gen = append(gen, g)
+				}
+			}
+			if len(gen) > 0 && rapid.IntRange(0, 2).Draw(rt, "unoffered_generatable") != 0 {
+				cands = gen
+			}
+			s.HRRGroup = cands[rapid.IntRange(0, len(cands)-1).Draw(rt, "group")]
+			s.HRRCookie = cookie
 		case "unsupported-listed-group":
 			if len(fake) == 0 {
 				st.Class("no-listed-unsupported-group")
@@ -150,7 +172,7 @@ func TestVerifC17HRR(t *testing.T) {
 		}
 		hellos := vfClientHellosOnWire(pair.CP.Written())
 		switch mode {
-		case "invalid-group-already-shared", "invalid-no-change":
+		case "invalid-group-already-shared", "invalid-no-change", "invalid-group-unoffered":
 			if cerr == nil || s.Completed {
 				st.Violation(rt, "%s: the client must abort on this HelloRetryRequest but did not (client err=%v, server completed=%v)", desc, cerr, s.Completed)
 			}
